@@ -9,6 +9,7 @@ import Proofs.DepGraphClosure
 import Proofs.DepGraphEqv
 import Proofs.DepGraphDepsRec
 import Proofs.DepGraphDependsRec
+import Proofs.FlattenDepthOne
 import Proofs.DepGraphTopoComplete
 /-!
 # C16 — the dependency graph mirrors a plain node/edge set under any edit history
@@ -505,6 +506,16 @@ theorem flatten_all_plain (store : Nat → Option G) :
         rw [hf] at h
         simp only [if_true] at h
         exact ih g1 g' h
+
+/-- **`flatten(recurse=True)` returns when the nested graphs hold plain nodes only** (one level of nesting — the groups
+of tasks the scheduler flattens), whatever the number of rounds allowed beyond two (the driver allows 20): every graft
+of the round succeeds, the result is a well-formed graph of plain nodes.
+(Deeper nesting: executable model, oracle and watchdog only; A29 was a non-termination there.) -/
+theorem flatten_one_level_returns (store : Nat → Option G) (g : G) (hg : GInv g)
+    (hstore : PlainStore store (g.nodes.seq.filter (· ≥ nestedBase))) (k : Nat) :
+    ∃ g', flattenLoop store true (2 + k) g = .ok g' ∧ GInv g' ∧ ∀ z, g'.Node z → z < nestedBase := by
+  obtain ⟨g', h, hi, hp⟩ := flatten_depth_one store g hg hstore
+  exact ⟨g', flattenLoop_mono store true 2 k g g' h, hi, hp⟩
 
 /-- one round of the model's `flatten` is such a sequence of grafts -/
 theorem flatten_round_eq (store : Nat → Option G) (g : G) (fuel : Nat) (subs : List G)
